@@ -35,12 +35,14 @@ Example C04_Cleaner_nonvacuous :
       st (snd r) = LAST /\ reward (snd r) = [- 2] /\ grid (fst r) = grid ex_s0 /\ locs (fst r) = locs ex_s0)
   /\ step ex_cfg ex_s0 [1; 2] = ref_step ex_cfg ex_s0 [1; 2].
 Proof. exact nonvacuous. Qed.
-(* LATENT finding (outside the shipped configurations): Cleaner.reset computes the mask for agents at (0,0) instead of
-   the positions returned by the generator; with a user-written Generator subclass whose agents start elsewhere the
-   reset mask is not the set of legal moves.  RandomGenerator (the only shipped one) always starts at (0,0). *)
-Theorem C04_Cleaner_reset_custom_generator_refuted :
-  exists c g ls, Physical_b c (fst (reset_of c g ls)) = true /\ mask_exact_b c (fst (reset_of c g ls)) = false
-    /\ amask (fst (reset_of c g ls)) = [[false; false; true; false]]
-    /\ map (legal_b (rows c) (cols c) g (1, 1)) (zrange 4) = [false; true; true; true].
-Proof. exact reset_custom_generator_refuted. Qed.
-Print Assumptions C04_Cleaner_reset_custom_generator_refuted.
+(* reset on the state of ANY Generator (agents anywhere on CLEAN cells): the reset mask is the table of legal moves at the
+   generator's own agent locations.  Refuted before the fix "Cleaner reset computed the action mask for agents at (0,0)". *)
+Theorem C04_Cleaner_reset_custom_generator c g ls :
+  Physical c (mkS g ls [] 0) -> mask_exact_b c (fst (reset_of c g ls)) = true.
+Proof. exact (reset_custom_generator_mask_exact c g ls). Qed.
+Print Assumptions C04_Cleaner_reset_custom_generator.
+Example C04_Cleaner_reset_custom_generator_nonvacuous :
+  let c := mkC 3 3 1 9 2 in let g := [[0; 2; 0]; [0; 1; 0]; [0; 0; 0]] in
+  Physical_b c (fst (reset_of c g [(1, 1)])) = true
+  /\ amask (fst (reset_of c g [(1, 1)])) = [[false; true; true; true]].
+Proof. exact reset_custom_generator_example. Qed.
